@@ -9,6 +9,7 @@ import (
 	"testing"
 	"time"
 
+	"github.com/fabiolb/fabio/metrics"
 	"github.com/fabiolb/fabio/zzverif/ev"
 )
 
@@ -73,6 +74,13 @@ func c02ExerciseInner(L *ev.Layer, text string, build func() (Table, error), sig
 							tg := tbl.Lookup(r, "", Picker[pk], Matcher[m], gc, false)
 							if tg != nil {
 								tg.AccessDeniedHTTP(r)
+								// what the proxies do with a target they serve
+								if tg.Timer != nil {
+									tg.Timer.Observe(0.01)
+								}
+								if tg.RxCounter != nil {
+									tg.RxCounter.Add(1)
+								}
 							}
 						}
 					}
@@ -115,10 +123,12 @@ func panicClass(msg string) string {
 
 func TestVerifC02Text(t *testing.T) {
 	L := ev.Begin("C02", "c02-text", "exploration",
-		"config texts: (a) 1..3 targets on one route with every combination of 19 weight spellings (non-finite, huge, denormal, hex, junk) x 10 paths (bad globs, globs with a brace that is never closed); (b) dst x opts x weight; (c) `route weight` with every weight over 1-2 matching targets; (d) junk lines; each through NewTable then 270 lookups (3 matchers x 2 pickers x hosts x paths) + String + Dump; (e) the same definitions through NewTableCustom incl. nil/null/empty JSON. oracle: (table,nil) or (nil,err), never a panic. non-trivial = text accepted as a table")
+		"config texts: (a) 1..3 targets on one route with every combination of 19 weight spellings (non-finite, huge, denormal, hex, junk) x 10 paths (bad globs, globs with a brace that is never closed); (b) dst x opts x weight; (c) `route weight` with every weight over 1-2 matching targets; (d) junk lines, bytes that are not UTF-8 in every field; each through NewTable then 270 lookups (3 matchers x 2 pickers x hosts x paths) + String + Dump, with the prometheus metrics provider installed and one observation per looked-up target; (e) the same definitions through NewTableCustom incl. nil/null/empty JSON. oracle: (table,nil) or (nil,err), never a panic. non-trivial = text accepted as a table")
 	type job struct {
 		text string
 	}
+	// the metrics provider whose labels are checked at observation time (what fabio runs with under metrics.target=prometheus)
+	SetMetricsProvider(metrics.NewPromProvider("verifc02", "", nil))
 	var jobs []string
 	// (a)
 	maxT := 2
@@ -194,7 +204,9 @@ func TestVerifC02Text(t *testing.T) {
 		jobs = append(jobs, "route add ok foo.com/ http://10.0.0.2:80/\nroute add s "+h+"/x http://10.0.0.1:80/\n")
 	}
 	// (d)
-	for _, l := range []string{"", "\n\n", "route", "route add", "route add a", "route add a b", "route del", "route weight", "route weight a b weight", "route add a b c weight", "route add a b c tags", "route add a b c tags \"", "route add a b c opts \"a b=c d==\"", "# c\n// d", "route add s  /x   http://h/   weight   0.1   tags   \"a , b\"", "route foo", "ROUTE ADD a b c", "/", "#", "r", " / ", "//", "/\n/x", "route add s /p http://h/\n/", "route add s \x00 http://h/", "route add s / \x00", "route del s / %zz", "route del tags \"\"", "route add s foo.com:80 tcp://h:1", "route add s :80 tcp://h:1 opts \"proto=tcp\"", strings.Repeat("route add s /p http://h/ weight 0.0001\n", 3), "route add s " + strings.Repeat("a", 70000) + " http://h/"} {
+	for _, l := range []string{"", "\n\n", "route", "route add", "route add a", "route add a b", "route del", "route weight", "route weight a b weight", "route add a b c weight", "route add a b c tags", "route add a b c tags \"", "route add a b c opts \"a b=c d==\"", "# c\n// d", "route add s  /x   http://h/   weight   0.1   tags   \"a , b\"", "route foo", "ROUTE ADD a b c", "/", "#", "r", " / ", "//", "/\n/x", "route add s /p http://h/\n/", "route add s \x00 http://h/", "route add s / \x00", "route del s / %zz", "route del tags \"\"", "route add s foo.com:80 tcp://h:1", "route add s :80 tcp://h:1 opts \"proto=tcp\"", strings.Repeat("route add s /p http://h/ weight 0.0001\n", 3), "route add s " + strings.Repeat("a", 70000) + " http://h/",
+		// bytes that are not UTF-8, in every field that ends up as a metric label (service, host, path, target) and in a tag
+		"route add s\xff / http://10.0.0.1:80/", "route add s f\xffoo.com/ http://10.0.0.1:80/\nroute add t foo.com/ http://10.0.0.1:80/", "route add s /a\xff http://10.0.0.1:80/\nroute add t / http://10.0.0.1:80/", "route add s / http://10.0.0.1:80/\xff", "route add s / http://10.0.0.1:80/ tags \"x\xff\""} {
 		jobs = append(jobs, l)
 	}
 	L.Set("texts", len(jobs))
